@@ -3,6 +3,7 @@ import ElvisVerif.Props.C01Full
 import ElvisVerif.Lemmas.TcpRelOrder
 import ElvisVerif.Lemmas.TcpRelData
 import ElvisVerif.Lemmas.TcpRelData2
+import ElvisVerif.Lemmas.TcpRelLoss
 import ElvisVerif.Props.C03FinData
 /-!
 # C03 — release after both applications close, from ANY reachable state of the closed system (closes after quiescence)
@@ -313,6 +314,111 @@ example : ∃ sys0 s : Sys, ∃ rs, ∃ ta tb : Tcb,
         exact ⟨sys0, s, rs, ta, tb, e0, plainRunB_sound _ _ _ e1, ⟨r1, r2⟩,
           ⟨hta, htb, steadyXB_sound _ _ x1, steadyXB_sound _ _ x2⟩, x3, x4, x5, by rw [x6]; simp,
           by rw [x6]; decide, x7, x8⟩
+      · simp at k1
+    · simp at key
+  · simp at key
+
+/-! ## close issued after loss, with data in flight and unsent text queued -/
+
+/-- **Close after loss** (`_partial`: calm starting states with an idle peer; one fair round).  Let `s` be a reachable
+    *calm* state of the closed system (`Props/C01Converge.lean`: both ESTABLISHED, SYN acknowledged, MTU >
+    SPACE_FOR_HEADERS, reorder heaps / receive buffers / one-shot queues empty, retransmission timers ≤ RTO) in which the
+    closer A has **ANYTHING on its retransmission queue** — data segments lost in any number, or received but their ACKs
+    lost, or both — and unsent text (`0 < |unsent| ≤ 65535·n`), and B is idle (`SND.UNA = SND.NXT`, nothing unsent).  A's
+    application calls `close()` (FIN-WAIT-1, no FIN yet), then the network is fair: `closeLossFrontN n` = `close A`,
+    `fairRound (2n + 2)` (= both retransmission timers expire, `2n + 2` exchange phases).  The closer **retransmits in
+    FIN-WAIT-1** (`advance_time` flags the whole queue whatever the state, `Tcb.advanceTime_fw`; the first `segments()`
+    re-sends the queue whole, then cuts what the window still admits), B takes what it has not received yet in order and
+    acknowledges the duplicates; the FIN is numbered behind the last text byte when the text is exhausted and leaves in the
+    batch of the last data; B reaches CLOSE-WAIT holding **everything A submitted**, A FIN-WAIT-2, both at rest.  When B's
+    application then closes (`releaseTail`), both TCBs are deleted and both streams are complete and exact.  Virtual time
+    per side from the close to the deletion: `RTO + 1` (the retransmission) `+ 2·MSL + 1` ms — the bound `2·MSL + RTO` of
+    DESIGN.md section 8 after the last needed retransmission holds. -/
+theorem c03_close_after_loss_partial (ia ib : Seq) (ma mb : U16) (simultaneous : Bool) (sys0 s : Sys)
+    (rs : List Res) (hma : SPACE_FOR_HEADERS ≤ ma.toNat) (hmb : SPACE_FOR_HEADERS ≤ mb.toNat)
+    (h0 : Sys.run {} [.open .A ia ma, if simultaneous then .open .B ib mb else .listen .B ib mb] = .ok (sys0, rs))
+    (hrun : PlainRun sys0 s) (h31 : RoomH s) (ta tb : Tcb) (hc : Calm s ta tb)
+    (hub : tb.snd.una = tb.snd.nxt) (tbt : tb.outgoing.text = [])
+    (hne : ta.outgoing.text ≠ []) (n : Nat) (hlen : ta.outgoing.text.length ≤ 65535 * n) :
+    ∃ s1 ta1 tb1 s2, closeLossFrontN n s = .ok s1 ∧ FinRun s s1 ∧ s1.a.tcb = some ta1 ∧ s1.b.tcb = some tb1 ∧
+      ta1.state = .FinWait2 ∧ tb1.state = .CloseWait ∧ RestX .A ta1 tb1 ∧ RestX .B tb1 ta1 ∧
+      s1.b.delivered = s1.a.submitted ∧ s1.a.submitted = s.a.submitted ∧
+      releaseTail s1 = .ok s2 ∧ closeLossRoundN n s = .ok s2 ∧ FinRun s s2 ∧ s2.a.tcb = none ∧ s2.b.tcb = none ∧
+      s2.b.delivered = s2.a.submitted ∧ s2.a.delivered = s2.b.submitted ∧
+      s2.a.submitted = s.a.submitted ∧ s2.b.submitted = s.b.submitted := by
+  have hg := good_of_reach ia ib ma mb simultaneous sys0 s rs hma hmb h0 hrun h31
+  obtain ⟨s1, ta1, tb1, s2, e1, r1, h1a, h1b, sa, sb, ca, cb, u1, u2, u3, e12, e2, r2, na, nb, v1, v2, v3, v4⟩ :=
+    close_after_loss n s hg ta tb hc hub tbt hne hlen
+  have hfr : FinRun sys0 s1 := (FinRun.of_plain hrun).trans r1
+  have hlt : C01.Lt31 s1 := by
+    have := h31.lt31
+    exact ⟨by show (s1.side .A).submitted.length < _; rw [u1]; exact this.1,
+      by show (s1.side .B).submitted.length < _; rw [u2]; exact this.2⟩
+  have hfin := (C03.c03_fin_after_data ia ib ma mb simultaneous sys0 s1 ⟨rs, h0⟩ hfr hlt .B tb1 h1b (by rw [sb]; rfl)).1
+  rw [cb.buf, List.append_nil] at hfin
+  have hdB : (s1.side .B).delivered = (s1.side .A).submitted := hfin
+  have hsyncB : ta.rcv.nxt = tb.snd.nxt := by
+    have sq := squeeze_facts hg .B tb ta hc.hb hc.ha hc.a.st
+    apply off_inj (base := issOf ia ib .B)
+    have : tb.sent = off (issOf ia ib .B) tb.snd.nxt := by unfold sent; rw [hg.iss_eq .B tb hc.hb]
+    rw [hub] at sq
+    omega
+  have hdA : (s.side .A).delivered = (s.side .B).submitted :=
+    idle_stream hg .B tb ta hc.hb hc.ha hsyncB (by rw [hc.a.st]; simp) hc.a.buf tbt
+  exact ⟨s1, ta1, tb1, s2, e1, r1, h1a, h1b, sa, sb, ca, cb, hdB, u1, e2, e12, r1.trans r2, na, nb,
+    by show (s2.side .B).delivered = (s2.side .A).submitted; rw [v4, hdB, u1, v1],
+    by show (s2.side .A).delivered = (s2.side .B).submitted; rw [v3, hdA, v2], v1, v2⟩
+
+/-- handshake completed; A writes [1, 2, 3] and emits them (history element 3) — LOST, never delivered; A writes [4, 5]
+    and emits them (element 4) — LOST as well; A's application writes [6]: two lost segments on A's retransmission queue,
+    one byte unsent; B idle, it has received nothing -/
+def lossDataOps : List Op :=
+  [.emit .A, .deliver .B 0, .emit .B, .deliver .A 1, .emit .A, .deliver .B 2,
+   .write .A [1, 2, 3], .emit .A, .write .A [4, 5], .emit .A, .write .A [6]]
+
+def closeLossCheck : Bool :=
+  match Sys.run {} [.open .A 1000 1500, .listen .B 5000 1500] with
+  | .ok (sys0, _) =>
+    match plainRunB sys0 lossDataOps with
+    | some s =>
+      decide (s.a.submitted.length + 2 < 2147483648) && decide (s.b.submitted.length + 2 < 2147483648) &&
+      (match s.a.tcb, s.b.tcb with
+        | some ta, some tb => calmXB ta && calmXB tb && tb.snd.una == tb.snd.nxt && tb.outgoing.text.isEmpty &&
+            ta.outgoing.text == [6] && ta.outgoing.retransmit.length == 2 && s.b.delivered == []
+        | _, _ => false) &&
+      (match closeLossFrontN 1 s with
+        | .ok s1 =>
+          (match s1.a.tcb, s1.b.tcb with
+            | some ta1, some tb1 => ta1.state == .FinWait2 && tb1.state == .CloseWait
+            | _, _ => false) && s1.b.delivered == [1, 2, 3, 4, 5, 6] &&
+          (match releaseTail s1 with
+            | .ok s2 => s2.a.tcb.isNone && s2.b.tcb.isNone && s2.b.delivered == [1, 2, 3, 4, 5, 6] && s2.a.delivered == []
+            | .error _ => false)
+        | .error _ => false)
+    | none => false
+  | .error _ => false
+
+/-- the hypotheses of `c03_close_after_loss_partial` hold in that reachable state (`n = 1`; two LOST data segments on A's
+    retransmission queue, B has received nothing), and the schedule, evaluated, ends as promised -/
+example : ∃ sys0 s : Sys, ∃ rs, ∃ ta tb : Tcb,
+    Sys.run {} [.open .A 1000 1500, if false then .open .B 5000 1500 else .listen .B 5000 1500] = .ok (sys0, rs) ∧
+    PlainRun sys0 s ∧ RoomH s ∧ Calm s ta tb ∧ tb.snd.una = tb.snd.nxt ∧ tb.outgoing.text = [] ∧
+    ta.outgoing.text ≠ [] ∧ ta.outgoing.text.length ≤ 65535 * 1 ∧ ta.outgoing.retransmit.length = 2 ∧
+    s.b.delivered = [] := by
+  have key : closeLossCheck = true := by decide
+  unfold closeLossCheck at key
+  split at key
+  · rename_i sys0 rs e0
+    split at key
+    · rename_i s e1
+      simp only [Bool.and_eq_true, decide_eq_true_eq] at key
+      obtain ⟨⟨⟨r1, r2⟩, k1⟩, _⟩ := key
+      split at k1
+      · rename_i ta tb hta htb
+        simp only [Bool.and_eq_true, List.isEmpty_iff, beq_iff_eq] at k1
+        obtain ⟨⟨⟨⟨⟨⟨x1, x2⟩, x3⟩, x4⟩, x5⟩, x6⟩, x7⟩ := k1
+        exact ⟨sys0, s, rs, ta, tb, e0, plainRunB_sound _ _ _ e1, ⟨r1, r2⟩,
+          ⟨hta, htb, calmXB_sound _ x1, calmXB_sound _ x2⟩, x3, x4, by rw [x5]; simp, by rw [x5]; decide, x6, x7⟩
       · simp at k1
     · simp at key
   · simp at key
